@@ -2,7 +2,7 @@
 from collections import Counter, defaultdict
 
 from ..model import (Ev, must_pass, must_precede, trace_through, trace_back, op_local, op_place, place_local,
-                     is_bare, provenance)
+                     is_bare, provenance, reach_positions)
 from ..rules import (rule_precede, rule_must_pass, rule_result_checked, rule_who_may_call, get_body, family,
                      calls_to, site, short, rule_between, return_defs, locals_of_type)
 from .. import errfate
@@ -112,6 +112,7 @@ def run(rep, prog, tier):
     r5(rep, prog)
     r6(rep, prog)
     r7(rep, prog)
+    r8(rep, prog)
 
 
 def r1(rep, prog):
@@ -364,6 +365,34 @@ def r7(rep, prog):
                     okc = True
     rep.check(okc, R, "a writer that was already killed stays killed", "is_alive() read before the recreation decides an error exit",
               "prepare_commit does not look at the liveness of the status it replaces: a writer killed by a failed worker becomes alive again at the next commit", site=b.span)
+
+
+def r8(rep, prog):
+    """a commit that could not be published is never published later"""
+    R = "C11-R8"
+    rep.rule(R, "a commit that failed is not published later: the commit task switches the in-memory registers to the new commit (SegmentManager::commit) before meta.json is written (save_metas reads them); so every error exit of the task that is reachable after that switch passes SegmentUpdater::kill — a killed updater saves no meta any more. Otherwise the next save_metas of a background merge writes the failed commit's segments into meta.json under the opstamp and payload of the previous commit")
+    fid = SU + "SegmentUpdater::schedule_commit::{closure#0}"
+    b = get_body(rep, prog, R, fid)
+    if b is None:
+        return
+    sw = calls_to(prog, b, {I + "segment_manager::SegmentManager::commit"})
+    if not rep.check(len(sw) == 1, R, "the commit task switches the registers once", "1 SegmentManager::commit", "expected one SegmentManager::commit call in the commit task, found %d" % len(sw), site=b.span):
+        return
+    KILL = {SU + "SegmentUpdater::kill", SU + "InnerSegmentUpdater::kill"} | set(prog.names(r"segment_updater::(Inner)?SegmentUpdater::kill$"))
+    kills = [Ev(x, "term") for x, _ in calls_to(prog, b, KILL)]
+    eb = b.error_blocks()
+    after = b.reachable(tuple(b.succ(sw[0][0])))
+    bad = []
+    for e in sorted(eb):
+        if e not in after:
+            continue
+        # is the error block reachable from the switch without passing a kill?
+        reached = reach_positions(b, kills, starts=tuple(b.succ(sw[0][0])))
+        if e in reached and reached[e] >= 0:
+            bad.append(e)
+    rep.check(not bad, R, "an error after the in-memory switch kills the updater", "%d kill site(s) on the error paths" % len(kills),
+              "the commit task can fail (save_metas) after SegmentManager::commit has already installed the new commit in memory, and the updater stays alive: the next merge's save_metas writes these "
+              "segments into meta.json under the previous commit's opstamp and payload — a commit that returned Err becomes visible", site=site(b, bad[0]) if bad else b.span)
 
 
 def r5(rep, prog):
